@@ -1,0 +1,55 @@
+//go:build verif
+
+// Contracts for package proto, read by the verifier in /verif (govc). Comment-only: this file
+// declares nothing and is compiled only with -tags verif.
+package proto
+
+//@ spec func u16be(b []byte, o int) uint16 = uint16(b[o]) << 8 | uint16(b[o+1])
+//@ spec func u32be(b []byte, o int) uint32 = uint32(b[o]) << 24 | uint32(b[o+1]) << 16 | uint32(b[o+2]) << 8 | uint32(b[o+3])
+//@ spec func u64be(b []byte, o int) uint64 = uint64(b[o]) << 56 | uint64(b[o+1]) << 48 | uint64(b[o+2]) << 40 | uint64(b[o+3]) << 32 | uint64(b[o+4]) << 24 | uint64(b[o+5]) << 16 | uint64(b[o+6]) << 8 | uint64(b[o+7])
+
+// C13: the order byte of a sender/receiver id. 0 means "no order" (round-robin over links and
+// receive queues), so with KeepNetworkOrder it must never be 0.
+//@ spec func orderOf(id uint64, keep bool) uint8 = (keep ? uint8(id % 255) + 1 : 0)
+
+//@ func (c *connection) send
+//@   trusted
+//@   modifies buf.B
+
+//@ func (c *connection) SendPID
+//@   props C13 C12 C14
+//@   at call send assert [order_nonzero] options.KeepNetworkOrder ==> order != 0 && buf.B[6] != 0
+//@   at call send assert [order_of_ids] order == orderOf(from.ID, options.KeepNetworkOrder) && buf.B[6] == orderOf(to.ID, options.KeepNetworkOrder)
+//@   at call send assert [header] len(buf.B) >= 33 && buf.B[0] == protoMagic && buf.B[1] == protoVersion && buf.B[7] == protoMessagePID && u32be(buf.B, 2) == uint32(len(buf.B))
+//@   at call send assert [ids] u64be(buf.B, 8) == from.ID && u64be(buf.B, 25) == to.ID && buf.B[16] & 3 == uint8(options.Priority) & 3
+//@   ensures [incarnation] to.Creation != c.peer_creation ==> result == gen.ErrProcessIncarnation
+
+//@ func (c *connection) CallPID
+//@   props C13 C12 C14 C07
+//@   at call send assert [order_nonzero] options.KeepNetworkOrder ==> order != 0 && buf.B[6] != 0
+//@   at call send assert [order_of_ids] order == orderOf(from.ID, options.KeepNetworkOrder) && buf.B[6] == orderOf(to.ID, options.KeepNetworkOrder)
+//@   at call send assert [header] len(buf.B) >= 49 && buf.B[0] == protoMagic && buf.B[1] == protoVersion && buf.B[7] == protoRequestPID && u32be(buf.B, 2) == uint32(len(buf.B))
+//@   at call send assert [ids] u64be(buf.B, 8) == from.ID && u64be(buf.B, 41) == to.ID
+//@   at call send assert [request_ref] u64be(buf.B, 17) == options.Ref.ID[0] && u64be(buf.B, 25) == options.Ref.ID[1] && u64be(buf.B, 33) == options.Ref.ID[2]
+//@   ensures [incarnation] to.Creation != c.peer_creation ==> result == gen.ErrProcessIncarnation
+
+//@ func (c *connection) SendAlias
+//@   props C13 C12 C14
+//@   at call send assert [order_nonzero] options.KeepNetworkOrder ==> order != 0 && buf.B[6] != 0
+//@   at call send assert [order_of_ids] order == orderOf(from.ID, options.KeepNetworkOrder) && buf.B[6] == orderOf(to.ID[1], options.KeepNetworkOrder)
+//@   at call send assert [header] len(buf.B) >= 49 && buf.B[0] == protoMagic && buf.B[1] == protoVersion && buf.B[7] == protoMessageAlias && u32be(buf.B, 2) == uint32(len(buf.B))
+//@   at call send assert [ids] u64be(buf.B, 8) == from.ID && u64be(buf.B, 25) == to.ID[0] && u64be(buf.B, 33) == to.ID[1] && u64be(buf.B, 41) == to.ID[2]
+//@   ensures [incarnation] to.Creation != c.peer_creation ==> result == gen.ErrProcessIncarnation
+
+//@ func (c *connection) CallAlias
+//@   props C13 C12 C14 C07
+//@   at call send assert [order_nonzero] options.KeepNetworkOrder ==> order != 0 && buf.B[6] != 0
+//@   at call send assert [order_of_ids] order == orderOf(from.ID, options.KeepNetworkOrder) && buf.B[6] == orderOf(to.ID[1], options.KeepNetworkOrder)
+//@   at call send assert [header] len(buf.B) >= 65 && buf.B[0] == protoMagic && buf.B[1] == protoVersion && buf.B[7] == protoRequestAlias && u32be(buf.B, 2) == uint32(len(buf.B))
+//@   at call send assert [ids] u64be(buf.B, 8) == from.ID && u64be(buf.B, 41) == to.ID[0] && u64be(buf.B, 49) == to.ID[1] && u64be(buf.B, 57) == to.ID[2]
+//@   at call send assert [request_ref] u64be(buf.B, 17) == options.Ref.ID[0] && u64be(buf.B, 25) == options.Ref.ID[1] && u64be(buf.B, 33) == options.Ref.ID[2]
+//@   ensures [incarnation] to.Creation != c.peer_creation ==> result == gen.ErrProcessIncarnation
+
+
+
+
